@@ -546,7 +546,10 @@ def oracle_algebra(r):
         dm = dl * pbl
         _eq("DensePauliString(a) * PauliString(b on LineQubits)", complex(dm.coefficient) * L.pauli_string_matrix(
             ("".join("IXYZ"[int(m)] for m in dm.pauli_mask) + "I" * n)[:n]), A @ B, tol)
-        dm = pbl * dl
+        try:
+            dm = pbl * dl
+        except TypeError:
+            raise Violation("PauliString(b on LineQubits) * DensePauliString(a) raises TypeError (the mirrored product is defined)")
         _eq("PauliString(b on LineQubits) * DensePauliString(a)", complex(dm.coefficient) * L.pauli_string_matrix(
             ("".join("IXYZ"[int(m)] for m in dm.pauli_mask) + "I" * n)[:n]), B @ A, tol)
         md = dl.mutable_copy()
@@ -842,6 +845,10 @@ def oracle_phasor(r):
         _eq("unitary(PauliStringPhasorGate(dense string with identity entries))",
             cirq.unitary(cirq.PauliStringPhasorGate(cirq.DensePauliString(la, coefficient=sign), exponent_neg=neg, exponent_pos=pos)),
             _phasor_matrix(la, sign, neg, pos), TOL)
+        # all-identity string: every state is a +1 (coefficient -1: a -1) eigenstate -> a pure phase
+        allid = cirq.PauliStringPhasorGate(cirq.DensePauliString("I" * n, coefficient=sign), exponent_neg=neg, exponent_pos=pos)
+        _eq("unitary(PauliStringPhasorGate(all-identity string))", cirq.unitary(allid),
+            np.exp(1j * np.pi * (pos if sign > 0 else neg)) * np.eye(2 ** n), TOL)
     lab["identity_wires"] = bool("I" in la and r.get("superset"))
     # PauliString ** t: integer t for any unit coefficient (unambiguous matrix power); real t for coefficient +1
     # (documented Pauli power convention: +1 eigenspace -> 1, -1 eigenspace -> exp(i pi t))
@@ -1207,33 +1214,17 @@ def oracle_misc(r):
 
 # =========================================================================================== repaired findings
 #
-# Four defects found by this check were repaired in the repository (fix: commits) and are generated again:
-#   C14-phasor-identity-wires   PauliStringPhasor(Gate) with identity positions computed the parity over all qubits
-#   C14-dense-times-sparse      DensePauliString * PauliString dropped the sparse string's coefficient
-#   C14-single-qubit-pow        PauliString.__pow__ of a one-qubit string ignored the coefficient
-#   C14-dm-pauli-measurement    DensityMatrixSimulator corrupted its state on a PauliMeasurementGate operation
-# Their minimal recipes are replayed as explicit examples via known_findings.json (status fixed).
+# Defects found by this check that were repaired in the repository (fix: commits) and are generated again; their
+# minimal recipes are replayed as explicit examples via known_findings.json (status fixed):
+#   C14-phasor-identity-wires        PauliStringPhasor(Gate) with identity positions computed the parity over all qubits
+#   C14-dense-times-sparse           DensePauliString * PauliString dropped the sparse string's coefficient
+#   C14-single-qubit-pow             PauliString.__pow__ of a one-qubit string ignored the coefficient
+#   C14-dm-pauli-measurement         DensityMatrixSimulator corrupted its state on a PauliMeasurementGate operation
+#   C14-identity-string-times-dense  (qubit-less PauliString) * DensePauliString raised TypeError
 # Observed but deliberately not asserted: the deprecated PauliString.pass_operations_over with a multi-operation list
 # (only single-operation lists are checked, where the documented and the legacy reading coincide).
 
-
-
-def _f_identity_times_dense(sub, r):
-    """Candidate C14-identity-string-times-dense (sent to the fixer): (qubit-less PauliString) * DensePauliString raises
-    TypeError because BaseDensePauliString.__rmul__ tests the interpreted operand for truthiness (length 0 is falsy)."""
-    if sub != "algebra" or not r.get("dense_mixed"):
-        return False
-    n = int(r["n"])
-    return set((r["b"]["ps"] + "I" * n)[:n]) <= {"I"}
-
-
-KNOWN_FEATURES = {"C14_identity_string_times_dense_typeerror": _f_identity_times_dense}
-# not yet adjudicated: kept out of *generation* only (VERIF_C14_PENDING=1 generates it)
-PENDING = set() if os.environ.get("VERIF_C14_PENDING") else {"C14_identity_string_times_dense_typeerror"}
-
-
-def _not_pending(sub):
-    return lambda r: not any(KNOWN_FEATURES[f](sub, r) for f in sorted(PENDING))
+KNOWN_FEATURES = {}
 
 
 # =========================================================================================== registry
@@ -1244,7 +1235,7 @@ SUBCHECKS = [
     SubCheck("pairs_2q", None, oracle_pairs, enumerate=_pair_recipes, exhaustive_in=("quick", "thorough"), shards_quick=8, shards_thorough=8),
     SubCheck("conj_1q", None, oracle_conj1, enumerate=_conj1_recipes, exhaustive_in=("quick", "thorough"), shards_quick=2, shards_thorough=4),
     SubCheck("conj_2q", None, oracle_conj2, enumerate=_conj2_recipes, exhaustive_in=("thorough",), shards_quick=8, shards_thorough=16, doc=_CONJ_SLICE_DOC),
-    SubCheck("algebra", _algebra_case().filter(_not_pending("algebra")), oracle_algebra, quick=3000, thorough=80000, shards_quick=4, shards_thorough=16,
+    SubCheck("algebra", _algebra_case(), oracle_algebra, quick=3000, thorough=80000, shards_quick=4, shards_thorough=16,
              essential={"complex_coeff": 0.2}),
     SubCheck("conj_random", _conj_case(), oracle_conj_random, quick=1500, thorough=40000, shards_quick=4, shards_thorough=16,
              essential={"moved": 0.3}),
